@@ -36,12 +36,13 @@ BaryFamilies == {"lagrange1", "lagrange2", "discontinuous0", "crorav"}
 
 \* ---- the dof mirror of a mesh part ----------------------------------------------------------------------------------------------
 \* t = the target sets of the part: t[d+1][j] = index (0-based) in M of the j-th d-entity of the part
-EntityDofs(M, sig, d, E) == [m \in 1..sig[d + 1] |-> DofOffset(M, sig, d) + E * sig[d + 1] + (m - 1)]
-DimDofs(M, sig, d, ts) == FlattenSeq([j \in 1..Len(ts) |-> EntityDofs(M, sig, d, ts[j])])
-MirrorSpec(M, sig, dim, t) == FlattenSeq([d \in 1..(dim + 1) |-> DimDofs(M, sig, d - 1, t[d])])
-Identity(n) == [k \in 1..n |-> k - 1]
+\* (TLCEval: TLC keeps a function constructor as an unevaluated lambda and would re-evaluate its body on every Len / application)
+EntityDofs(off, sd, E) == TLCEval([m \in 1..sd |-> off + E * sd + (m - 1)])
+DimDofs(M, sig, d, ts) == LET off == DofOffset(M, sig, d)  sd == sig[d + 1] IN TLCEval(FlattenSeq(TLCEval([j \in 1..Len(ts) |-> EntityDofs(off, sd, ts[j])])))
+MirrorSpec(M, sig, dim, t) == TLCEval(FlattenSeq(TLCEval([d \in 1..(dim + 1) |-> DimDofs(M, sig, d - 1, t[d])])))
+Identity(n) == TLCEval([k \in 1..n |-> k - 1])
 \* the part that consists of all entities in their own order
-WholeMesh(M, dim) == [d \in 1..(dim + 1) |-> Identity(N(M, d - 1))]
+WholeMesh(M, dim) == TLCEval([d \in 1..(dim + 1) |-> Identity(N(M, d - 1))])
 \* law of the definition (evaluated on every mesh of every case): the mirror of the whole mesh is the identity - this is why a
 \* child / patch process may pair its IDENTITY mirror with the parent's mirror of the patch mesh part
 LawWholeMesh(M, sig, dim) == MirrorSpec(M, sig, dim, WholeMesh(M, dim)) = Identity(NumGlobalDofs(M, sig, dim))
@@ -52,10 +53,11 @@ LawWholeMesh(M, sig, dim) == MirrorSpec(M, sig, dim, WholeMesh(M, dim)) = Identi
 EntKey(M, sig, d, E) == << GEnt(M, d, E), IF sig[d + 1] > 1 THEN GTup(M, d, E) ELSE << >> >>
 \* FuncTable[i+1] = the functional with dof index i (the inverse of the numbering contract, by construction)
 FuncTable(M, sig, dim) ==
-  FlattenSeq([d \in 1..(dim + 1) |->
-    FlattenSeq([E \in 1..N(M, d - 1) |-> [m \in 1..sig[d] |-> << d - 1, EntKey(M, sig, d - 1, E - 1), m - 1 >>]])])
+  TLCEval(FlattenSeq(TLCEval([d \in 1..(dim + 1) |->
+    TLCEval(FlattenSeq(TLCEval([E \in 1..N(M, d - 1) |->
+      LET key == TLCEval(EntKey(M, sig, d - 1, E - 1)) IN TLCEval([m \in 1..sig[d] |-> << d - 1, key, m - 1 >>])])))])))
 InRange(mir, n) == \A k \in 1..Len(mir) : mir[k] \in 0..(n - 1)
-FSeq(FTab, mir) == [k \in 1..Len(mir) |-> FTab[mir[k] + 1]]
+FSeq(FTab, mir) == TLCEval([k \in 1..Len(mir) |-> FTab[mir[k] + 1]])
 
 \* ---- values of the affine test function ---------------------------------------------------------------------------------------------
 PW == << 1, 64, 4096 >>
@@ -64,7 +66,9 @@ PSumEnt(M, d, E) == FoldSeq(LAMBDA v, acc : acc + PAt(M.X[v + 1]), 0, VT(M, d, E
 \* 24 * 2^K * f(barycentre of the d-entity E);  coordinates are integers at scale 2^K
 Val24(C, M, d, E) == 24 * TwoTo(C.K) + (24 \div NVerts(C.fam, d)) * PSumEnt(M, d, E)
 ValTable(C, M, sig) ==
-  FlattenSeq([d \in 1..(C.dim + 1) |-> FlattenSeq([E \in 1..N(M, d - 1) |-> [m \in 1..sig[d] |-> Val24(C, M, d - 1, E - 1)]])])
+  TLCEval(FlattenSeq(TLCEval([d \in 1..(C.dim + 1) |->
+    TLCEval(FlattenSeq(TLCEval([E \in 1..N(M, d - 1) |->
+      LET val == Val24(C, M, d - 1, E - 1) IN TLCEval([m \in 1..sig[d] |-> val])])))])))
 
 \* ---- access ----------------------------------------------------------------------------------------------------------------------------
 RV(C, w) == RankRec(C, w).virt
@@ -122,9 +126,9 @@ GateFails(C, l, lv, e) ==
   LET el == C.els[e]
       sig == Sig(el, C.fam, C.dim)
       Mem == Members(C, l)
-      FTab == [u \in Mem |-> TLCEval(FuncTable(MeshOf(C, l, u, lv), sig, C.dim))]
-      FSet == [u \in Mem |-> TLCEval(TRange(FTab[u]))]
-      idx == [u \in Mem |-> VIdx(C, u, l, lv)]
+      FTab == TLCEval([u \in Mem |-> FuncTable(MeshOf(C, l, u, lv), sig, C.dim)])
+      FSet == TLCEval([u \in Mem |-> TLCEval(TRange(FTab[u]))])
+      idx == TLCEval([u \in Mem |-> VIdx(C, u, l, lv)])
       G(u) == EV(C, u, e)[idx[u]].gate
   IN UNION {
     LET M == MeshOf(C, l, w, lv)
@@ -195,7 +199,7 @@ MuxFails(C, lp, e) ==
             ps == LevelRec(C, lp, p, lv).patches
             ndp == NumGlobalDofs(Mp, sig, C.dim)
             FTp == TLCEval(FuncTable(Mp, sig, C.dim))
-            FTc == [k \in 0..(nsib - 1) |-> TLCEval(FuncTable(MeshOf(C, lc, ChildWorldOf(C, lp, p, k), lv), sig, C.dim))]
+            FTc == TLCEval([k \in 0..(nsib - 1) |-> FuncTable(MeshOf(C, lc, ChildWorldOf(C, lp, p, k), lv), sig, C.dim)])
             shapeok == /\ Has(x, "mux") /\ Len(x.mux.cm) = nsib
                        /\ \A k \in 1..nsib : InRange(x.mux.cm[k], ndp)
                        /\ \A k \in 0..(nsib - 1) : HasPart(ps, k) /\ TargetsOK(Mp, PartOfRank(ps, k).t, C.dim)
@@ -208,7 +212,7 @@ MuxFails(C, lp, e) ==
              (IF ~bary THEN {} ELSE
                Fail(/\ Has(x, "join") /\ Len(x.join) = ndp
                     /\ LET VTab == ValTable(C, Mp, sig)
-                           FSc == [k \in 0..(nsib - 1) |-> TLCEval(TRange(FTc[k]))]
+                           FSc == TLCEval([k \in 0..(nsib - 1) |-> TLCEval(TRange(FTc[k]))])
                        IN \A j \in 1..ndp : x.join[j] = Cardinality({k \in 0..(nsib - 1) : FTp[j] \in FSc[k]}) * VTab[j],
                     "JoinVal", p, vi, el)))
   IN UNION {childfails(u) : u \in Members(C, lc)} \cup UNION {parentfails(p) : p \in Members(C, lp)}
@@ -253,5 +257,70 @@ SplFails(C, lv, e) ==
   IN UNION {patchfails(u) : u \in 0..(C.nr - 1)} \cup rootfails
 \* the levels of layer 0 that carry a base level
 BaseLevels(C) == {RV(C, 0)[i].lvl : i \in {j \in 1..Len(RV(C, 0)) : RV(C, 0)[j].base}}
+
+\* ---- tuple spaces: the system gate / muxer / splitter built from the component objects -------------------------------------------------------
+\* (Control::Asm::build_gate_tuple / build_muxer_tuple / build_splitter_tuple, 2 and 3 components).  The component objects of the same
+\* process and virtual level are judged by the predicates above; the system object must be their component-wise combination:
+\*   gate      neighbour ranks = the ascending union of the component gates' ranks; component c of the mirror for rank r = the component
+\*             gate's mirror for r, EMPTY if r is not a neighbour of that component (a discontinuous pressure has no neighbours at all)
+\*   muxer     parent mirror = tuple of the component parent mirrors, child mirror k = tuple of the component child mirrors k
+\*   splitter  the same for root / patch mirrors; base vector template sized by the component base spaces
+\* and every collective operation acts component-wise (sync_0, join, split of the interpolants).
+TupRec(C, w, t) == RankRec(C, w).tups[t]
+CompIdx(C, name) == CHOOSE e \in 1..Len(C.els) : C.els[e] = name
+TuplesOK(C) ==
+  \A w \in 0..(C.nr - 1) :
+    /\ Len(RankRec(C, w).tups) = Len(C.tuples)
+    /\ \A t \in 1..Len(C.tuples) :
+         LET T == TupRec(C, w, t) IN
+         /\ T.tu = C.tuples[t] /\ Len(T.comps) \in 2..3 /\ Len(T.virt) = Len(RV(C, w))
+         /\ \A c \in 1..Len(T.comps) : \E e \in 1..Len(C.els) : C.els[e] = T.comps[c]
+         /\ T.comps = TupRec(C, 0, t).comps
+StrictlyAscending(sq) == \A j \in 1..(Len(sq) - 1) : sq[j] < sq[j + 1]
+TupFails(C, t) ==
+  LET name == C.tuples[t]
+      comps == TupRec(C, 0, t).comps
+      nc == Len(comps)
+      ce == TLCEval([c \in 1..nc |-> CompIdx(C, comps[c])])
+      bary == TLCEval([c \in 1..nc |-> comps[c] \in BaryFamilies])
+      vals(c, rec, fld) == IF bary[c] /\ Has(rec, fld) THEN rec[fld] ELSE << >>
+  IN UNION {UNION {
+       LET v == RV(C, w)[i]
+           y == TupRec(C, w, t).virt[i]
+           X(c) == EV(C, w, ce[c])[i]
+           gateok ==
+             IF v.ghost THEN ~Has(y, "gate") ELSE
+             /\ Has(y, "gate") /\ Has(y, "sync0") /\ \A c \in 1..nc : Has(X(c), "gate")
+             /\ StrictlyAscending(y.gate.ranks)
+             /\ TRange(y.gate.ranks) = UNION {TRange(X(c).gate.ranks) : c \in 1..nc}
+             /\ Len(y.gate.mir) = Len(y.gate.ranks)
+             /\ \A j \in 1..Len(y.gate.ranks) : \A c \in 1..nc :
+                  LET r == y.gate.ranks[j]
+                      js == {q \in 1..Len(X(c).gate.ranks) : X(c).gate.ranks[q] = r}
+                  IN /\ Len(y.gate.mir[j]) = nc
+                     /\ y.gate.mir[j][c] = (IF js = {} THEN << >> ELSE X(c).gate.mir[CHOOSE q \in js : TRUE])
+             /\ Len(y.sync0) = nc /\ \A c \in 1..nc : y.sync0[c] = vals(c, X(c), "sync0")
+           muxok ==
+             IF ~v.child THEN ~Has(y, "mux") ELSE
+             /\ Has(y, "mux") /\ Has(y, "split") /\ \A c \in 1..nc : Has(X(c), "mux")
+             /\ y.mux.is_child /\ y.mux.is_parent = v.parent
+             /\ Len(y.mux.pm) = nc /\ \A c \in 1..nc : y.mux.pm[c] = X(c).mux.pm
+             /\ \A c \in 1..nc : Len(y.mux.cm) = Len(X(c).mux.cm)
+             /\ \A k \in 1..Len(y.mux.cm) : Len(y.mux.cm[k]) = nc /\ \A c \in 1..nc : y.mux.cm[k][c] = X(c).mux.cm[k]
+             /\ Len(y.split) = nc /\ \A c \in 1..nc : y.split[c] = vals(c, X(c), "split")
+             /\ (v.parent => Has(y, "join") /\ Len(y.join) = nc /\ \A c \in 1..nc : y.join[c] = vals(c, X(c), "join"))
+           splok ==
+             IF ~v.base THEN ~Has(y, "spl") ELSE
+             /\ Has(y, "spl") /\ \A c \in 1..nc : Has(X(c), "spl")
+             /\ y.spl.single = (C.nr = 1) /\ (C.nr > 1 => y.spl.root = (w = 0))
+             /\ Len(y.spl.pm) = nc /\ \A c \in 1..nc : y.spl.pm[c] = X(c).spl.pm
+             /\ Len(y.spl.nbase) = nc /\ \A c \in 1..nc : y.spl.nbase[c] = X(c).spl.nbase
+             /\ \A c \in 1..nc : Len(y.spl.cm) = Len(X(c).spl.cm)
+             /\ \A k \in 1..Len(y.spl.cm) : Len(y.spl.cm[k]) = nc /\ \A c \in 1..nc : y.spl.cm[k][c] = X(c).spl.cm[k]
+             /\ (C.nr > 1 =>
+                   /\ y.spl_enabled /\ Has(y, "ssplit") /\ Len(y.ssplit) = nc /\ \A c \in 1..nc : y.ssplit[c] = vals(c, X(c), "ssplit")
+                   /\ (w = 0 => Has(y, "sjoin") /\ Len(y.sjoin) = nc /\ \A c \in 1..nc : y.sjoin[c] = vals(c, X(c), "sjoin")))
+       IN Fail(gateok, "TupGate", w, i - 1, name) \cup Fail(muxok, "TupMux", w, i - 1, name) \cup Fail(splok, "TupSpl", w, i - 1, name)
+     : i \in 1..Len(RV(C, w))} : w \in 0..(C.nr - 1)}
 
 =============================================================================
